@@ -102,7 +102,7 @@ func c02NewOrigin() *c02Origin { return &c02Origin{cases: map[string]*c02Spec{}}
 
 func TestVerif_C02_e2eh2(t *testing.T) {
 	s := verifh.New(t, "C02", "e2eh2",
-		"real client (EnableForceHTTP2, default 4 MiB stream window or advertised INITIAL_WINDOW_SIZE 65535 so that 1 MiB bodies span many windows) <-> Go net/http server over TLS+h2 on loopback running a scripted handler: 0..3 interim 1xx, final status, GET/HEAD, X- fields + Content-Type, declared Content-Length or not, trailers (declared via Trailer or only sent), body written in generated DATA-sized pieces with Flush; body lengths {0,1,2,100,4095..4097,16383..16385,65535..65537,random,1 MiB+-1}; modes as e2eh1; oracle = origin's spec; non-trivial = non-empty delivered body")
+		"real client (EnableForceHTTP2, default 4 MiB stream window or advertised INITIAL_WINDOW_SIZE 65535 so that 1 MiB bodies span many windows; some clients advertise a small SETTINGS_MAX_HEADER_LIST_SIZE and now and then an EARLIER response on the same connection is refused for its header list or abandoned by the caller after one byte) <-> Go net/http server over TLS+h2 on loopback running a scripted handler: 0..3 interim 1xx, final status, GET/HEAD, X- fields + Content-Type, declared Content-Length or not, trailers (declared via Trailer or only sent), body written in generated DATA-sized pieces with Flush; body lengths {0,1,2,100,4095..4097,16383..16385,65535..65537,random,1 MiB+-1}; modes as e2eh1; oracle = origin's spec; non-trivial = non-empty delivered body")
 	r := s.Rand()
 	origin := c02NewOrigin()
 	srv := httptest.NewUnstartedServer(origin)
@@ -126,6 +126,7 @@ func TestVerif_C02_e2eh2(t *testing.T) {
 	n := verifh.N(220, 2500)
 	var cl *Client
 	small := false
+	hdrLimit := 0
 	fails := 0
 	for c := 0; c < n && fails < 8; c++ { // a broken transport fails (and may stall) every case: stop early
 		if cl == nil || r.Intn(15) == 0 {
@@ -140,8 +141,21 @@ func TestVerif_C02_e2eh2(t *testing.T) {
 			if r.Intn(3) == 0 {
 				cl.GetTransport().DisableAutoDecode()
 			}
+			// a small advertised SETTINGS_MAX_HEADER_LIST_SIZE: lets an earlier response on
+			// the connection be refused for its header list
+			hdrLimit = 0
+			if r.Intn(3) == 0 {
+				hdrLimit = verifh.Pick(r, []int{4096, 6000})
+				cl.GetTransport().SetHTTP2MaxHeaderListSize(uint32(hdrLimit))
+			}
+		}
+		if k := c02Earlier(s, cl, origin.put, origin.del, srv.URL, c, hdrLimit); k != "" {
+			s.Count("earlier:" + k)
 		}
 		sp := c02GenSpec(s, false, true)
+		if hdrLimit > 0 {
+			c02ClampFields(sp)
+		}
 		mode := c02GenMode(s)
 		path := "/c" + strconv.Itoa(c)
 		origin.put(path, sp)
@@ -286,6 +300,9 @@ func TestVerif_C02_e2eh3(t *testing.T) {
 			if r.Intn(3) == 0 {
 				cl.GetTransport().DisableAutoDecode()
 			}
+		}
+		if k := c02Earlier(s, cl, origin.put, origin.del, base, c, 0); k != "" {
+			s.Count("earlier:" + k)
 		}
 		sp := c02GenSpec(s, false, true)
 		mode := c02GenMode(s)
